@@ -15,14 +15,20 @@ PROPS = {
                     "assumption, the poller's read loop with its exits, the AsyncRead gate with its read task, one-shot re-arm, UDP "
                     "sessions keyed by a byte-level model of getUDPNetAddrKey): for every configuration and every interleaving of "
                     "arrivals, reports, poller steps and task steps — delivered = dequeued prefix of sent, readEvents in {0,1,2} with at "
-                    "most one task, unread input is always owed a report or a read (quiescent => re-reported), every run of internal "
-                    "steps is finite, the session key is injective. The model is tied to the code by differential execution of the REAL "
+                    "most one task, unread input is always owed a report or a read (quiescent => re-reported), the owed report is an "
+                    "enabled step of the model and with unread input some step is always enabled (c02_progress), every run of internal "
+                    "steps is finite, a close on a peer half-close leaves nothing unread, the session key is injective. The model is tied to the code by differential execution of the REAL "
                     "readWriteLoop/AsyncRead/readUDP on virtual descriptors (scripted receive queues, injected epoll batches, a parking "
                     "executor and atomic/read hooks that force chosen schedules), with direct oracles on the implementation alone",
             "note": "proof, partial: kernel readiness semantics of LT/ET/ONESHOT (incl. 'a short read on a stream means the queue was "
                     "empty') and goroutine-level atomicity of the model's steps are assumptions; model fidelity is sampled on every run; "
-                    "the 2^31-1 iteration limit of ET mode is modelled as unbounded; NPoller only selects the poller, CPU idleness on a "
-                    "real kernel is measured only in the supporting real-socket cases (60 ms window); read-call counters on the simulated kernel",
+                    "the 2^31-1 iteration limit of ET mode is modelled as unbounded; LT readiness is the kernel's by assumption, so the "
+                    "no-lost-edge / quiescence theorems carry content for ET and ONESHOT only; no liveness theorem composes progress, "
+                    "finiteness and delivery into 'eventually delivered' (fairness of the kernel's reports would be the hypothesis); the "
+                    "model has one conn per engine (demultiplexing by descriptor is exercised by hlife with up to four conns) and UDP "
+                    "sessions only grow; the model admits spurious reports and does not model write interest, so 'readers go idle' is "
+                    "proved for the internal steps between reports and MEASURED (idle CPU in a 60 ms window, incl. after an immediate "
+                    "DialAsync connect) on real sockets; NPoller only selects the poller; read-call counters on the simulated kernel",
             "technique": "Lean 4 proof (inductive invariant over a small-step transition system, decreasing measure) + differential correspondence"},
         "lean": ["NbioVerif.Properties.C02", srcgen.BRIDGE_CONN], "drivers": ["gatedrv"], "harness": ["hread"],
         "facts": [srcgen.src_facts],
@@ -42,29 +48,46 @@ PROPS = {
     "C03": {
         "manifest": {
             "text": "Lean theorems on a lifecycle model at critical-section granularity (closed flag flipped under the mutex in "
-                    "five places, teardown outside the lock only by the flipper, addConn's three statements, dial state): for every "
-                    "kind of conn, every history and every interleaving — at most one close notification and exactly one once the "
-                    "teardown is complete, never before the open notification, closeErr = argument of the flipping step and stable "
-                    "afterwards, operations after the flip fail without a syscall, Close idempotent, dial outcome reported at most "
-                    "once / exactly once when the dial is over / success only if the kernel connected. The model is tied to the code "
-                    "by differential execution of the REAL engine (AddConn, acceptor, DialAsync with scripted connect/SO_ERROR, "
-                    "poller loop, N closers released from a barrier, deadlines, injected write/flush/sendfile/read errors, overflow, "
-                    "Stop) on virtual descriptors plus real loopback sockets, with direct oracles on the implementation alone",
-            "note": "proof, partial: goroutine-level atomicity of the flag flip / of each model step and 'nobody reaches a conn before "
-                    "it was announced' are assumptions (enabling conditions of the model); winner of concurrent closers and of two "
-                    "timers armed for the same instant are inputs observed from the run; model fidelity is sampled on every run; the "
-                    "real-socket steps (accept, client close/reset, real refused dial) are supporting evidence",
+                    "five places, teardown outside the lock only by the flipper, addConn's closed test and four statements, dial "
+                    "start / failure before registration / separately armed dial timeout, the kernel's connect verdict chosen once, "
+                    "ghost wait-group counter): for every kind of conn (added, accepted, dialed, UDP session, UDP listener), every "
+                    "history and every interleaving of Life.step from Life.mk — at most one close notification, exactly one once the "
+                    "teardown of a conn a poller owns is complete, none for a conn nobody ever saw, never before the open notification, "
+                    "the wait group never negative and released at the end, closeErr = argument of the flipping step and stable "
+                    "afterwards, no step touches the descriptor after the teardown, a torn-down conn is not in the fd table, dial "
+                    "outcome reported at most once / exactly once when the dial is over / success only if the kernel's verdict is "
+                    "success, the dial timeout never closes a conn reported as connected. The one exception is stated and proved "
+                    "to be real: the user's own Close racing its AddConn between the closed test and the open notification "
+                    "(c03_raced_*). The driver changes a conn's state through Life.step only (a disabled step is a MODEL-ERROR), so "
+                    "the compared states are the states the theorems quantify over. Tie: differential execution of the REAL engine "
+                    "(AddConn incl. of a closed conn, acceptor, DialAsync with scripted connect/SO_ERROR and a connect completing "
+                    "inside DialAsync, poller loop with synchronous reads or read tasks incl. a hang-up arriving while a task is busy, N closers released from a barrier, deadlines, injected write/flush/sendfile/read "
+                    "errors, overflow, Stop) on virtual descriptors plus real loopback sockets, with direct oracles on the "
+                    "implementation alone",
+            "note": "proof, partial: goroutine-level atomicity of each model step (critical-section predicates) and the enabling "
+                    "conditions 'nobody but the caller of AddConn reaches a conn before it was announced / registered' are "
+                    "assumptions; the AddConn/Close race of the holder of the *Conn is excluded by hypothesis (model counterexamples, "
+                    "not reproduced on the code: no hook point between the two statements); which of k concurrent closers wins and "
+                    "which of two timers armed for the same instant fires are nondeterministic in the model and resolved from the "
+                    "observed run (winner=/cause= annotations: the model is told WHO, it computes the error; membership is judged by "
+                    "the oracle c03-first-cause) — every other op is serialized by the harness; listener-closes-sessions and "
+                    "Stop-closes-the-table are compositions in the driver over single-conn models (sampled, not proved); model "
+                    "fidelity is sampled on every run; the real-socket steps (accept, client close/reset, real refused dial, peer FIN "
+                    "on a dialed conn) are supporting evidence",
             "technique": "Lean 4 proof (inductive invariant over a small-step transition system) + differential correspondence"},
         "lean": ["NbioVerif.Properties.C03", srcgen.BRIDGE_CONN], "drivers": ["lifedrv"], "harness": ["hlife"],
         "facts": [srcgen.src_facts],
         "runs": [LIFE_RUN],
         "oracles": ["c03-"], "cs": cs_life.C03_CS,
-        "rule": "case = (epoll mode, NPoller, write-buffer limit, history over up to four conns of kinds added/dialed/UDP listener+"
+        "rule": "case = (epoll mode, NPoller, write-buffer limit, listener, AsyncReadInPoller, history over up to four conns of kinds added/dialed/UDP listener+"
                 "sessions/accepted/really dialed: traffic, scripted kernel answers, dial outcomes, k concurrent closers with distinct "
                 "errors, deadlines, operations after close, Stop); distinct by hash of (configuration, op kinds with flags/answers/"
                 "closer counts/dial outcome/timer cause); non-trivial iff a conn was closed, dialed or hit by an event",
         "assumptions": ["the test-and-set of the closed flag is atomic (mutex); each model step is atomic in the Go code",
-                        "a conn is not reachable by other goroutines before its open notification / dial registration",
-                        "the kernel reports the result of a non-blocking connect through writability and SO_ERROR"],
+                        "an accepted conn, a UDP session and a dialing conn are not reachable by other goroutines before their open "
+                        "notification / dial registration; the caller of AddConn may close its conn at any time, except between "
+                        "addConn's closed test and its open notification (Life.c03_raced_open_without_close / _close_before_open)",
+                        "the kernel decides once how a non-blocking connect ends and reports it through writability and SO_ERROR",
+                        "winner of concurrent closers / of two timers armed for the same instant: observed from the run (echoed input)"],
     },
 }
